@@ -17,13 +17,14 @@ func init() {
 }
 
 type c13Scenario struct {
-	cause     string // close | keepalive | second-connect | garbage | node-failure | disconnect
-	nNodes    int
-	host      int
-	willQos   int
-	retain    bool
-	willTopic string
-	filters   []string // one watcher per node per filter
+	cause        string // close | keepalive | second-connect | garbage | node-failure | disconnect
+	nNodes       int
+	host         int
+	willQos      int
+	retain       bool
+	willTopic    string
+	filters      []string // one watcher per node per filter
+	emptyPayload bool
 }
 
 type c13Watcher struct {
@@ -78,6 +79,17 @@ func c13Run(c *fw.Ctx, idx int, sc c13Scenario) {
 	}
 	host := nodes[sc.host]
 	tag := fmt.Sprintf("will-%d", idx)
+	emptyWill := sc.emptyPayload
+	willPayload := []byte(tag)
+	if emptyWill {
+		willPayload = nil // a zero-length will message is legal; it is recognised by its topic below
+	}
+	isWill := func(p kit.Pkt) bool {
+		if emptyWill {
+			return p.Topic == sc.willTopic && len(p.Payload) == 0
+		}
+		return string(p.Payload) == tag
+	}
 	ka := 600
 	if sc.cause == "keepalive" {
 		ka = 1
@@ -87,7 +99,7 @@ func c13Run(c *fw.Ctx, idx int, sc c13Scenario) {
 	cl.Quiesce()
 	cl.StartPump(3 * time.Millisecond)
 	dyingOpts := kit.ConnectOpts{ClientID: fmt.Sprintf("dying-%d", idx), KeepAlive: ka, Clean: true, User: "tA",
-		Will: true, WillTopic: sc.willTopic, WillPayload: []byte(tag), WillQos: sc.willQos, WillRetain: sc.retain}
+		Will: true, WillTopic: sc.willTopic, WillPayload: willPayload, WillQos: sc.willQos, WillRetain: sc.retain}
 	var dying *kit.Client
 	var err error
 	if sc.cause == "close-before-connack" {
@@ -134,7 +146,14 @@ func c13Run(c *fw.Ctx, idx int, sc c13Scenario) {
 		dying.Send(kit.EncDisconnect())
 	case "node-failure":
 		cl.StopPump()
-		cl.FailNode(host)
+		if idx%2 == 0 {
+			cl.FailNode(host)
+		} else {
+			// the survivors notice the failure one after the other, with the gossip caused by the
+			// first one's reaction delivered in between
+			cl.FailNodeStaggered(host, 40*time.Millisecond)
+			c.Observe("staggered_node_failures", 1)
+		}
 		survivors[sc.host] = false
 		cl.StartPump(3 * time.Millisecond)
 	}
@@ -144,7 +163,7 @@ func c13Run(c *fw.Ctx, idx int, sc c13Scenario) {
 		topics = map[string]bool{}
 		ids := map[int]bool{}
 		for _, p := range w.cl.Publishes() {
-			if string(p.Payload) != tag {
+			if !isWill(p) {
 				continue
 			}
 			if p.Qos > 0 && ids[p.ID] {
@@ -162,7 +181,7 @@ func c13Run(c *fw.Ctx, idx int, sc c13Scenario) {
 			if !survivors[w.node] || !matching(w) {
 				continue
 			}
-			if _, _, err := w.cl.WaitFor(0, 20*time.Second, func(e kit.Event) bool { return e.Pkt.Type == kit.PUBLISH && string(e.Pkt.Payload) == tag }); err != nil {
+			if _, _, err := w.cl.WaitFor(0, 20*time.Second, func(e kit.Event) bool { return e.Pkt.Type == kit.PUBLISH && isWill(e.Pkt) }); err != nil {
 				c.Violation("will-not-delivered:"+sc.cause, fmt.Sprintf("%s: the watcher on n%d with filter %q (same mount point) did not receive the will within 20 s", desc, w.node+1, w.filter), wit(map[string]interface{}{"watcher_node": w.node + 1, "filter": w.filter}))
 				return
 			}
@@ -319,6 +338,11 @@ func runC13(c *fw.Ctx) {
 			scen = append(scen, c13Scenario{cause: cause, nNodes: nn, host: rg.Intn(nn), willQos: rg.Intn(3), retain: rg.Intn(2) == 0, willTopic: t,
 				filters: []string{t, "w/+/x", "w/#", "w/none"}})
 		}
+	}
+	// zero-length will messages
+	for i, cause := range []string{"close", "garbage", "node-failure"} {
+		t := fmt.Sprintf("w/empty%d/x", i)
+		scen = append(scen, c13Scenario{cause: cause, nNodes: 2 + i%2, host: 0, willQos: i % 2, willTopic: t, filters: []string{t, "w/+/x", "w/#", "w/none"}, emptyPayload: true})
 	}
 	for i := 0; i < c.Pick(6, 300); i++ {
 		cause := causes[rg.Intn(len(causes))]
